@@ -57,7 +57,12 @@ def build(case):
             panel.add_tube(tube, tspec.get("name"))
         rec.add_panel(panel, pname)
     for fname, fspec in case["flowpaths"]:
-        rec.add_flowpath(fspec["panels"], times, np.array(conv(fspec["mass_flow"])), np.array(conv(fspec["inlet"])), name=fname)
+        ftimes = times
+        if case.get("fp_jitter"):
+            # the flow path's own time array equals the tubes' up to round-off (later times an ulp above)
+            ftimes = np.array(times, dtype=float)
+            ftimes[1:] = ftimes[1:] * (1.0 + 2.0 ** -52)
+        rec.add_flowpath(fspec["panels"], ftimes, np.array(conv(fspec["mass_flow"])), np.array(conv(fspec["inlet"])), name=fname)
     return rec
 
 
